@@ -895,7 +895,39 @@ func (fr *Frame) spawn(st *State, in *ssa.Go) {
 			cf.requireExpr(st, "spawn-pre", fr.oblFunc(), fr.oblName(fr.anchorName(in, "go")+":"+name+":"+rq.Label(fmt.Sprintf("#%d", i+1))), rq.Expr, nil, rq.Tags, in.Pos(), "spawn precondition of "+name+": "+rq.Text)
 		}
 	}
-	_ = binds
+	if fc != nil && callee != nil && fc.Flags["spawn_inline"] != nil && fr.depth < maxInlineDepth {
+		// the goroutine's body is checked here, in the lexical scope of the spawning function, on a
+		// state where everything shared may have changed in the meantime and no lock is held
+		sub := st.clone()
+		fr.havocHeap(sub)
+		r.set(sub, "g|$held", "((as const (Array Int Bool)) false)")
+		cf := &Frame{r: r, fn: callee, fname: name, inst: fr.inst, vals: map[ssa.Value]Val{}, names: map[string]Val{}, parent: fr}
+		for i, p := range callee.Params {
+			if i < len(args) {
+				a := args[i]
+				a.T = p.Type()
+				cf.names[p.Name()] = a
+			}
+		}
+		for i, fv := range callee.FreeVars {
+			if i < len(binds) {
+				cf.names["&"+fv.Name()] = binds[i]
+				cf.vals[fv] = binds[i]
+			}
+		}
+		cf.entry = sub
+		for _, rq := range fc.Requires {
+			if v, err := cf.eval(sub, rq.Expr, nil); err == nil {
+				r.assume(sub, v.S)
+			} else {
+				r.evalErrors = append(r.evalErrors, fmt.Sprintf("%s: requires %q: %v", name, rq.Text, err))
+			}
+		}
+		r.inlined[name+" (at go statement)"] = true
+		sf := r.newFrame(callee, fr)
+		sf.spawned = true
+		r.execFunc(sf, sub, args, binds)
+	}
 }
 
 func hasTag(tags []string, t string) bool {
